@@ -10,7 +10,7 @@ void harness(void)
   ares_server_t *srv[2];
   ares_conn_t   *conn;
   ares_query_t  *q;
-  int            tok, deferred, no_retries;
+  int            tok, deferred, no_retries, attached, is_probe;
   size_t         tries0, tries1, budget;
   ares_status_t  st, in_status, prev_err, expect;
   ares_bool_t    inc;
@@ -26,7 +26,11 @@ void harness(void)
   conn = world_add_conn(&M_ch, srv[0], vp_bool());
   q    = M_new_query();
   tok  = M_ntok - 1;
-  if (vp_bool()) M_attach(q, conn, 1005);
+  attached = vp_bool();
+  if (attached) M_attach(q, conn, 1005);
+  /* the request may be a health probe of the server it is in flight on (ares_probe_failed_server) */
+  is_probe = attached && vp_bool();
+  if (is_probe) srv[0]->probe_pending = ARES_TRUE;
   q->try_count    = vp_range(0, 3000000);
   no_retries      = vp_bool();
   q->no_retries   = no_retries ? ARES_TRUE : ARES_FALSE;
@@ -66,6 +70,11 @@ void harness(void)
     VP_ASSERT(M_cb_status[tok] == expect, "final status is the last error seen, or timeout");
     VP_ASSERT(M_cb_status[tok] != ARES_SUCCESS, "a request never fails with a success status");
     VP_ASSERT(st == ARES_ETIMEOUT, "requeue reports the end of the request");
+    /* C09: a probe that ends (it never retries) must release the server for the next probe after the retry delay */
+    if (is_probe) {
+      VP_ASSERT(srv[0]->probe_pending == ARES_FALSE, "a finished probe clears the server's probe-pending mark (else the server is never probed again)");
+      VP_WITNESS("probe ended");
+    }
     VP_WITNESS("budget exhausted");
   }
   M_check_links_relaxed();
